@@ -17,7 +17,7 @@ import subprocess
 
 from harness import common
 from harness import metaedit_io as mio
-from harness.props.c20 import split_records
+from harness.props.c20 import split_records, in_quantifier, random_walk, shape
 
 FEAT_NAMES = ['x', 'y', 'z']
 OP_NAMES = ['f', 'g']
@@ -74,6 +74,8 @@ class Spec:
         self.intern = intern or mio.Interner()
         self.names = list(case.get('names', NAMES)) if isinstance(case, dict) else list(NAMES)
         self.gens = {}          # class -> classifiers of its generic super types (-1: none), in order
+        self.opparams = {}      # (class, operation name) -> its current parameter list
+        self.opbad = set()      # (class, operation name): the current list has no Python signature
         self.frozen = set()     # (instance, declaration id): the default was edited after the instance looked at it
         self.supers = {}
         self.feats = {}
@@ -104,6 +106,11 @@ class Spec:
 
     def opdecl(self, c, n):
         return any(n in self.ops[k] for k in self.closure(c))
+
+    def opbad_in(self, c, n):
+        """Is an operation n of the closure declared with a parameter list that has no Python signature at the moment
+        (an edit in progress)?  Then whether a method shows is not the property's business."""
+        return any((k, n) in self.opbad for k in self.closure(c))
 
     def fail(self, clause, what, stale=False, culprit='edit'):
         if self.out is None:        # bookkeeping only (the generator uses a Spec to stay well-formed)
@@ -145,6 +152,8 @@ class Spec:
         if self.out is None:
             return
         c = self.inst[i]
+        if self.opbad_in(c, n):
+            return
         D = self.decls(c, n)
         O = self.opdecl(c, n)
         cur = D[0]['did'] if len(D) == 1 else (None if not D else -1)
@@ -198,6 +207,8 @@ class Spec:
             for label, got, want in (('dir(instance)', in_dir, bool(D) or O), ('eAllStructuralFeatures()', in_all, bool(D)),
                                      ('findEStructuralFeature()', found, bool(D)), ('hasattr(type(instance))', on_type, bool(D) or O),
                                      ('eAllOperations()', in_ops, O)):
+                if label in ('dir(instance)', 'hasattr(type(instance))') and self.opbad_in(c, n):
+                    continue
                 if bool(got) != bool(want):
                     self.fail('view', f'{where}: {label} of instance {i} (class {c}) says {bool(got)} for {n!r}, '
                               f'declared in the closure: {bool(want)}')
@@ -269,6 +280,8 @@ class Spec:
             self.ops[c].remove(name)
             if dcl:
                 self.ops[dcl].append(name)
+                if (c, name) in self.opparams:
+                    self.opparams[(dcl, name)] = self.opparams.pop((c, name))
             if code != 0:
                 self.fail('edit-raises', f'{where}: raised (code {code})', culprit=k)
                 self.broken = True
@@ -338,8 +351,10 @@ class Spec:
         elif k == 'popop':
             os_ = self.ops[op[1]]
             if -len(os_) <= op[2] < len(os_):
-                os_.pop(op[2])
-                if code != 0:
+                gone = os_.pop(op[2])
+                if (op[1], gone) in self.opbad:
+                    self.opbad.discard((op[1], gone))
+                elif code != 0:
                     self.fail('edit-raises', f'{where}: raised (code {code})', culprit=k)
                     self.broken = True
         elif k == 'addfeat':
@@ -361,20 +376,38 @@ class Spec:
             if code != 0:
                 self.fail('edit-raises', f'{where}: raised (code {code})', culprit=k)
                 self.broken = True
+        elif k == 'editop':
+            _, c, name, edits = op
+            new = mio.apply_param_edits(self.opparams.get((c, name), []), edits)
+            self.opparams[(c, name)] = new
+            (self.opbad.discard if in_quantifier(name, new) else self.opbad.add)((c, name))
+            if code != 0 and in_quantifier(name, new):
+                self.fail('edit-raises', f'{where}: raised (code {code})', culprit=k)
+                self.broken = True
         elif k == 'addop':
             self.ops[op[1]].append(op[2])
-            if code != 0:
+            self.opparams[(op[1], op[2])] = [list(p) for p in op[3]]
+            if not in_quantifier(op[2], op[3]):
+                self.opbad.add((op[1], op[2]))
+            elif code != 0:
                 self.fail('edit-raises', f'{where}: raised (code {code})', culprit=k)
                 self.broken = True
         elif k == 'rmop':
             if op[2] in self.ops[op[1]]:
                 self.ops[op[1]].remove(op[2])
-                if code != 0:
+                self.opparams.pop((op[1], op[2]), None)
+                if (op[1], op[2]) in self.opbad:        # no method to take away: whether that raises is not judged
+                    self.opbad.discard((op[1], op[2]))
+                elif code != 0:
                     self.fail('edit-raises', f'{where}: raised (code {code})', culprit=k)
                     self.broken = True
         elif k == 'clearops':
+            had_bad = any(x[0] == op[1] for x in self.opbad)
+            self.opbad = {x for x in self.opbad if x[0] != op[1]}
             self.ops[op[1]] = []
-            if code != 0:
+            if code != 0 and had_bad:
+                self.broken = True
+            elif code != 0:
                 self.fail('edit-raises', f'{where}: raised (code {code})', culprit=k)
                 self.broken = True
         elif k == 'newinst':
@@ -432,7 +465,7 @@ class Spec:
                 if self.broken:
                     continue
                 self.check_attr(j, n, obs, 'final dump')
-                if bool(in_dir) != d_expected[n]:
+                if bool(in_dir) != d_expected[n] and not self.opbad_in(c, n):
                     self.fail('dir', f'final dump: {n!r} in dir(instance {j}) is {bool(in_dir)}, declared: {d_expected[n]}')
             row = dump[i:i + nclasses]
             i += nclasses
@@ -851,6 +884,118 @@ def views_scenarios(ctx, out, intern=None, stats=None):
                 stats['samples'].append(case)
 
 
+# ---------------------------------------------------------------- operations whose parameters are edited while declared
+def opwalk_history(rng, name, params, steps, chainlen, pos, extra_super):
+    """A chain of classes (plus, optionally, an unrelated class made a second super type of the last one), the operation
+    declared at `pos`, one instance per class; the parameter edits one by one, each followed by a new instance and by a look
+    at EVERY instance: getattr (a method or nothing), the views; finally the operation is removed."""
+    h = [['newclass', [k - 1] if k > 1 else []] for k in range(1, chainlen + 1)]
+    if extra_super:
+        h.append(['newclass', []])
+        h.append(['addsuper', chainlen, chainlen + 1, 'append'])
+    ncls = chainlen + (1 if extra_super else 0)
+    h.append(['addfeat', 1, 'x', 0, 0, 5, 'append'])
+    h += [['newinst', c] for c in range(1, ncls + 1)]
+    h.append(['addop', pos, name, params, 'append'])
+    ninst = ncls
+
+    def looks():
+        for i in range(ninst):
+            h.append(['get', i, name])
+            h.append(['look', i])
+    looks()
+    for e in steps:
+        h.append(['editop', pos, name, [e]])
+        h.append(['newinst', rng.randint(1, ncls)])
+        ninst += 1
+        looks()
+    h.append(['rmop', pos, name])
+    looks()
+    return h
+
+
+def opwalk_scenarios(ctx, out, intern=None, stats=None):
+    """Implementation + oracle only, PRNG stream 'C12:opwalk': the visibility side of editing a declared operation's
+    parameters through lists without a Python signature and back (the walk generator is C20's)."""
+    common.use_repo()
+    intern = intern or mio.Interner()
+    thorough = ctx.tier == 'thorough'
+    rng = common.rng_for(ctx.seed, 'C12:opwalk')
+    hs = []
+    for n in (2, 3):
+        params = [[['a', 'b', 'c'][i], 1, 'int'] for i in range(n)]
+        for order in itertools.permutations(range(n)):
+            steps = [['flip', i] for i in order] + [['flip', i] for i in reversed(order)]
+            for pos, extra in ((1, False), (2, True)):
+                hs.append(opwalk_history(rng, 'f', params, steps, 3, pos, extra))
+    hs.append(opwalk_history(rng, 'g', shape(1, 1), [['append', ['g', 1, 'int']], ['move', 2, 0], ['flip', 2], ['flip', 1]], 4, 2, False))
+    for _ in range(1500 if thorough else 150):
+        params = shape(rng.randrange(3), rng.randrange(3))
+        chainlen = rng.randint(2, 4)
+        hs.append(opwalk_history(rng, rng.choice(OP_NAMES), params, random_walk(rng, params, rng.randint(3, 7)), chainlen,
+                                 rng.randint(1, chainlen), rng.random() < 0.3))
+    for h in hs:
+        case = {'section': 'opwalk', 'scenario': 'opwalk', 'seed': ctx.seed, 'tier': ctx.tier, 'history': h, 'names': NAMES}
+        r = mio.run_impl(h, NAMES, intern)
+        if r['flag_after']:
+            restore_linearisation()
+        judge(out, h, NAMES, r['tokens'], r['per_op'], case, intern)
+        if stats is not None:
+            stats['oracle_only_histories']['opwalk'] = stats['oracle_only_histories'].get('opwalk', 0) + 1
+            stats['ops'] += len(h)
+
+
+# ---------------------------------------------------------------- several classes of the same name
+def samename_systematic():
+    """Two (three) distinct classes called Node -- in two packages, or in none -- with a feature each, used as super types of
+    one class: declared at creation in both orders, added one by one, through a bulk assignment, one of them through a
+    generic super type; instances before and after; every view."""
+    out = []
+    names2 = [['Node', 1], ['Node', 2], ['Holder', 0], ['Node', 0], ['Sub', 1]]
+    names0 = [['Node', 0], ['Node', 0], ['Node', 0], ['Node', 0], ['Node', 0]]
+    feats = [['addfeat', 1, 'x', 0, 0, 5, 'append'], ['addfeat', 2, 'y', 0, 1, 0, 'append'], ['addop', 1, 'f', [], 'append'],
+             ['addop', 2, 'g', [['a', 1, 'int']], 'append']]
+    tail = [['newinst', 3], ['newinst', 5], ['look', 0], ['look', 1], ['look', 2], ['get', 1, 'x'], ['set', 2, 'x', 7], ['append', 1, 'y', 4]]
+    for cn in (names2, names0):
+        for sup in ([1, 2], [2, 1]):
+            out.append(([['newclass', []], ['newclass', []], ['newclass', sup]] + feats
+                        + [['newclass', []], ['newclass', [3]], ['newinst', 3]] + tail, cn))
+        for e in ([['addsuper', 3, 1, 'append'], ['addsuper', 3, 2, 'append']], [['addsuper', 3, 2, 'insert'], ['addsuper', 3, 1, 'extend']],
+                  [['setsupers', 3, [1, 2]]], [['setsupers', 3, [2, 1]]], [['addsuper', 3, 1, 'append'], ['addgen', 3, 2, 'before']],
+                  [['addgen', 3, 1, 'after'], ['addgen', 3, 2, 'extend']], [['addsuper', 3, 1, 'append'], ['addsuper', 3, 2, 'append'], ['rmsuper', 3, 2]],
+                  [['addsuper', 3, 4, 'append'], ['addsuper', 3, 1, 'append'], ['addsuper', 3, 2, 'append'], ['rmsuper', 3, 4]]):
+            out.append(([['newclass', []], ['newclass', []], ['newclass', []]] + feats + [['newclass', []], ['newclass', [3]], ['newinst', 3]]
+                        + e + tail, cn))
+    return out
+
+
+def samename_scenarios(ctx, out, intern=None, stats=None):
+    """Implementation + oracle only, PRNG stream 'C12:samename': the histories of the ordinary / generic / views generators
+    run on classes that share their NAME (in two packages or in none)."""
+    common.use_repo()
+    intern = intern or mio.Interner()
+    thorough = ctx.tier == 'thorough'
+    rng = common.rng_for(ctx.seed, 'C12:samename')
+    hs = [(h, cn, 'samename-systematic') for h, cn in samename_systematic()]
+    for j in range(6000 if thorough else 600):
+        g = [Gen, GenericGen, ViewsGen][j % 3](rng, 5, rng.randint(4, 9))
+        cn = [[rng.choice(['Node', 'Node', 'Node', 'Item']), rng.choice([0, 1, 2])] for _ in range(5)]
+        hs.append((g.history(), cn, 'samename-random'))
+    for h, cn, section in hs:
+        case = {'section': section, 'scenario': 'samename', 'seed': ctx.seed, 'tier': ctx.tier, 'history': h, 'names': NAMES,
+                'class_names': cn}
+        r = mio.run_impl(h, NAMES, intern, class_names=cn)
+        if r['flag_after']:
+            restore_linearisation()
+        judge(out, h, NAMES, r['tokens'], r['per_op'], case, intern)
+        if r['isinstance_disagreements']:
+            out.fail({'property': 'C12', 'clause': 'isinstance-vs-EcoreUtils', 'culprit': 'isinstance', 'qualifiers': []},
+                     f'isinstance and EcoreUtils.isinstance disagree: {r["isinstance_disagreements"]}', case)
+        if stats is not None:
+            stats['oracle_only_histories']['samename'] = stats['oracle_only_histories'].get('samename', 0) + 1
+            stats['ops'] += len(h)
+
+
 def generic_systematic():
     """A (x, f), B (y), C, D(C) with instances of each; C gets A as a generic super type (three ways); one edit of that
     channel; instances created afterwards; an old, untouched instance of C is looked at; the final dump judges."""
@@ -1141,6 +1286,8 @@ def run(ctx, out):
     model.close()
     oracle_only_families(ctx, out, intern, stats)
     views_scenarios(ctx, out, intern, stats)
+    opwalk_scenarios(ctx, out, intern, stats)
+    samename_scenarios(ctx, out, intern, stats)
     if mio.flag_installed():
         out.diff('Metasubinstance.mro is replaced in the checking process at the end of the run', {'global': True})
         restore_linearisation()
@@ -1162,7 +1309,10 @@ def run(ctx, out):
                 'default absent/falsy/truthy x 5 ways of declaring it, edited afterwards, read before and after; '
                 'views family (stream C12:views): hierarchies 3+ levels deep, dir / eAllStructuralFeatures / findEStructuralFeature / '
                 'eAllAttributes / eAllReferences / eAllOperations / hasattr(type) of every instance asked before and after every edit, '
-                'features and operations re-parented through eContainingClass (single-valued end) and through the other collection'
+                'features and operations re-parented through eContainingClass (single-valued end) and through the other collection; '
+                'opwalk family (stream C12:opwalk): a declared operation whose parameters are edited one at a time through lists without a '
+                'Python signature and back, getattr + views on every instance after every step; samename family (stream C12:samename): '
+                'the ordinary / generic / views histories on classes that share their name (two packages or none)'
                 % (5 if thorough else 4, 16 if thorough else 10),
         'traces_validated_against_impl': stats['histories'],
         'c3_graphs': stats['c3_graphs'], 'c3_conflicts': stats['c3_conflicts'],
@@ -1200,8 +1350,8 @@ def replay(ctx, rep):
     if case.get('section') == 'c3':
         print('C3 table', case['table'], '(compare Model/C3.v with type.mro by hand)')
         return 1
-    if case.get('scenario') == 'views':
-        return common.scenario_replay(ctx, rep, {'views': views_scenarios})
+    if case.get('scenario') in ('views', 'opwalk', 'samename'):
+        return common.scenario_replay(ctx, rep, {'views': views_scenarios, 'opwalk': opwalk_scenarios, 'samename': samename_scenarios})
     intern = mio.Interner()
     if case.get('init_flag'):
         mio.run_impl(mio.FLAG_TRIGGER, [], intern)
